@@ -69,6 +69,7 @@ FNS = {
     'Plane.copy': _method('copy'),
     'Plane.rescale': _method('rescale'),
     'Plane.resample': _method('resample'),
+    'Tilt.shift': lambda L, t, **k: t.shift(**k),
     # ---- wavefronts and propagation
     'Wavefront': lambda L, *a, **k: L.Wavefront(*a, **k),
     'Wavefront.insert': lambda L, w, out, weight=1: w.insert(out, weight),
@@ -94,6 +95,17 @@ FNS = {
     'hexagon': lambda L, shape, radius, **k: L.hexagon(tuple(shape), radius, **k),
     'rectangle': lambda L, shape, width, height, **k: L.rectangle(tuple(shape), width, height, **k),
     'hex_segments': lambda L, **k: L.hex_segments(**k),
+    'spider': lambda L, shape, width, **k: L.spider(tuple(shape), width, **k),
+    'pixelscale_nyquist': lambda L, wave, f_number: L.pixelscale_nyquist(wave, f_number),
+    'min_sampling': lambda L, wave, z, du, shape, min_q: L.min_sampling(wave, z, du, shape, min_q),
+    'sanitize_shape': lambda L, shape: L.sanitize_shape(shape),
+    'sanitize_bandpass': lambda L, vec: L.sanitize_bandpass(vec),
+    'zernike_coordinates': lambda L, mask, **k: L.zernike_coordinates(mask, **k),
+    'mesh': lambda L, shape, **k: L.helper.mesh(tuple(shape), **k),
+    'gaussian2d': lambda L, size, sigma: L.helper.gaussian2d(size, sigma),
+    'boundary_slice': lambda L, x, **k: L.helper.boundary_slice(x, **k),
+    'field.reduce': lambda L, w: L.field.reduce(w.data),
+    'field.overlap': lambda L, w: L.field.overlap(w.data),
     'zernike': lambda L, mask, index, **k: L.zernike(mask, index, **k),
     'zernike_compose': lambda L, mask, coeffs, **k: L.zernike_compose(mask, coeffs, **k),
     'zernike_fit': lambda L, opd, mask, modes, **k: L.zernike_fit(opd, mask, modes, **k),
@@ -141,4 +153,6 @@ FNS = {
     'path_emission': lambda L, items, **k: L.radiometry.path_emission(items, **k),
     'planck_radiance': lambda L, wave, temp, **k: L.radiometry.planck_radiance(wave, temp, **k),
     'planck_exitance': lambda L, wave, temp, **k: L.radiometry.planck_exitance(wave, temp, **k),
+    'vegaflux': lambda L, band, **k: L.radiometry.vegaflux(band, **k),
+    'qe_asarray': lambda L, qe, wave, waveunit: L.detector.qe_asarray(qe, wave, waveunit),
 }
